@@ -274,6 +274,40 @@ def observe(css):
     return [(sorted(s), [(p, v) for p, v, _ in d]) for _c, s, d in canon.rules(css)]
 
 
+# ---- repeated expansion: a mixin body is expanded afresh for every call (no value, string or condition of one expansion may survive into
+# ---- the next).  Bodies are drawn from a pool of declarations and nested constructs that depend on the parameter; the same sheet with the
+# ---- calls `.m(v1)` `.m(v2)` ... in separate rules must give, rule by rule, what the sheets with a single call give.
+REPEAT_DECLS = [
+    'width: @p * 2;', 'height: (@p + 1px) * 3;', 'margin: -(@p * 2) 0;', 'top: 10px - -(@p * 2) + 1;', 'left: -(@p + 1px) * 4;', 'padding: -@p;',
+    'color: lighten(#336699, @k * 2);', 'background: darken(#aabbcc, @k + 5%);', 'border-color: spin(#ff0000, @k * 3);', 'outline-color: mix(#000, #fff, @k * 2);',
+    'content: "v@{p}";', 'quotes: "a@{p}" "b@{k}";', 'font-family: ~"f-@{p}";', 'background-image: url("img-@{p}.png");',
+    '.n-@{i} { z-index: @i; }', '.in { min-width: @p; .deep-@{i} { max-width: @p * 2; } }', '&-s@{i} { right: @p; }',
+    '@media (min-width: @p) { bottom: @p; }', '@media screen { .q { top: @p; } }', '.inner("t@{i}");', '.inner2(@p * 2);', '.inner3(~"e@{i}");',
+]
+REPEAT_HELPERS = '.inner(@s){ content: @s; }\n.inner2(@z){ max-height: @z; }\n.inner3(@e){ font-family: @e; }\n'
+REPEAT_ARGS = [('1px', '5%', '1'), ('3.5px', '10%', '2'), ('20px', '15%', '3'), ('0.5px', '1%', '4')]
+
+
+def repeat_case(rng):
+    body = ' '.join(rng.sample(REPEAT_DECLS, rng.randrange(2, 6)))
+    args = rng.sample(REPEAT_ARGS, rng.randrange(2, 4))
+    mixin = REPEAT_HELPERS + '.m(@p, @k, @i){ %s }\n' % body
+    wrap = rng.choice(['%s', '%s', '@media print { %s }'])
+    rules = ['.r%d { .m(%s, %s, %s); }' % (j, a[0], a[1], a[2]) for j, a in enumerate(args)]
+    together = mixin + '\n'.join(wrap % r for r in rules) + '\n'
+    singles = [mixin + (wrap % r) + '\n' for r in rules]
+    return together, singles
+
+
+def rules_by_prefix(css, j):
+    """the rules of the output that belong to calling rule .r<j> (selector or media content mentioning it), as canonical text"""
+    out = []
+    for ctx, sels, decls in canon.rules(css):
+        if any(('.r%d' % j) == x or x.startswith('.r%d ' % j) or x.startswith('.r%d-' % j) or x.startswith('.r%d:' % j) for x in sels):
+            out.append((tuple(ctx) if isinstance(ctx, (list, tuple)) else ctx, tuple(sels), tuple((p_, v_) for p_, v_, _i in decls)))
+    return out
+
+
 def run(tier):
     chk = C.Check(PROP, tier, 'proof')
     rng = random.Random(C.seed() * 141650939 + 5)
@@ -335,6 +369,69 @@ def run(tier):
     chk.cov['disagreements_checked'] = len(disagreements)
     chk.cov['exhaustive'] = False
     chk.cov['distribution'] = stats
+    # ---- a candidate whose guard fails contributes nothing, not even its parameter bindings (the sheet without it gives the same CSS);
+    # ---- calls through a namespace: every call of the body is expanded, in any order of plain-rule calls and sibling-mixin calls
+    fixed = []
+    for extra in ('@b: 10', '@b: 10; @c: red', '@q: 1px'):
+        for glob in ('@b: 7;', '@b: 7; @c: blue;', ''):
+            cand = '.m(@a; %s) when (@a > 5) { width: @b }\n' % extra
+            rest = '.m(@a) { height: @a; top: @b }\n%s\n.x { .m(1); }\n.y { .m(9%s); }\n' % (glob, '')
+            fixed.append(('candidate-frame', cand + rest.replace('.y { .m(9); }\n', ''), rest.replace('.y { .m(9); }\n', '')))
+    for body in ('.plain(); .leaf();', '.leaf(); .plain();', '.plain; .leaf; .leaf();', '.leaf(); .plain(); .leaf2();', '.plain(); .plain2; .leaf2(); .leaf();'):
+        ns = '.ns { .leaf(){height:2px} .leaf2(){top:3px} .outer(){ %s } }\n.plain{color:red}\n.plain2{left:0}\n' % body
+        want = ''.join({'.plain()': 'color:red;', '.plain': 'color:red;', '.leaf()': 'height:2px;', '.leaf': 'height:2px;', '.leaf2()': 'top:3px;', '.plain2': 'left:0;'}[c_.strip()]
+                       for c_ in body.rstrip(';').split(';'))
+        for call in ('.ns > .outer();', '.ns .outer;', '.ns > .outer;'):
+            fixed.append(('namespace', ns + '.x{ %s }\n' % call, want))
+    fres = C.compile_many([(a_, dict(minify=True)) for _k, a_, _b in fixed] + [(b_, dict(minify=True)) for k_, _a, b_ in fixed if k_ == 'candidate-frame'])
+    nb = 0
+    for k, (kind, a_, b_) in enumerate(fixed):
+        chk.count((kind, a_), nontrivial=True)
+        ra = fres[k]
+        if kind == 'candidate-frame':
+            rb = fres[len(fixed) + nb]
+            nb += 1
+            same = (ra[0] == rb[0]) and (ra[0] != 'ok' or ra[1] == rb[1]) and (ra[0] == 'ok' or 'SyntaxError' in ra[3])
+            if not same:
+                chk.violation({'kind': 'candidate-frame', 'source': a_, 'expected': rb[1] if rb[0] == 'ok' else list(rb[:3]), 'actual': ra[1] if ra[0] == 'ok' else list(ra[:3]),
+                               'problem': 'a mixin candidate whose guard fails must contribute nothing: the sheet without it compiles differently', 'without': b_})
+                break
+        else:
+            got = ra[1].split('.x{', 1)[1].split('}')[0] if ra[0] == 'ok' and '.x{' in ra[1] else None
+            if got != b_:
+                chk.violation({'kind': 'namespace', 'source': a_, 'expected': '.x{%s}' % b_, 'actual': ra[1] if ra[0] == 'ok' else list(ra[:3])})
+                break
+    stats['fixed_families'] = len(fixed)
+    # ---- repeated expansion (see REPEAT_DECLS)
+    nrep = 120 if tier == 'quick' else 2500
+    rcases = [repeat_case(rng) for _ in range(nrep)]
+    rjobs = []
+    for together, singles in rcases:
+        rjobs.append((together, dict(minify=True)))
+        rjobs += [(s_, dict(minify=True)) for s_ in singles]
+    rres = C.compile_many(rjobs)
+    pos = 0
+    stats['repeat_cases'] = nrep
+    for together, singles in rcases:
+        rt = rres[pos]
+        rs = rres[pos + 1:pos + 1 + len(singles)]
+        pos += 1 + len(singles)
+        chk.count(('repeat', together), nontrivial=True)
+        if len(chk.violations) > 5:
+            break
+        if any(r_[0] != 'ok' for r_ in rs):
+            continue                                  # a body outside what the compiler accepts: not this oracle's business
+        if rt[0] != 'ok':
+            chk.violation({'kind': 'repeat-error', 'source': together, 'expected': 'compiles like each call alone', 'actual': list(rt[:3])})
+            continue
+        for j, r_ in enumerate(rs):
+            want = rules_by_prefix(r_[1], j)
+            got = rules_by_prefix(rt[1], j)
+            if want != got:
+                chk.violation({'kind': 'repeat', 'source': together, 'call': j, 'expected': [list(map(list, w[1:])) for w in want],
+                               'actual': [list(map(list, g[1:])) for g in got], 'single_source': singles[j],
+                               'problem': 'the rules produced for calling rule .r%d differ from those of the sheet with that call alone' % j})
+                break
     C.tie_verdict(chk, build, missing, disagreements, 'Lessm.Mixin.compile vs lesscpy',
                   'random mixin programs were run against the inlining oracle: no failing input')
     return chk.finish()
